@@ -1,4 +1,5 @@
 import PPProofs.Lemmas.PegSem
+import PPModel.Mod.Entry
 /-!
 # C01 — closed theorem: the parsing algorithm computes the PEG reading (plain fragment)
 
@@ -24,6 +25,10 @@ location, both values of `callPreParse` and of `doActions`, and every fuel:
                           the reading assigns the task a result at all (`plain_parse_returns_iff`): the runs that never
                           return (a repetition body matching without advancing, a `Forward` recursing without
                           consuming) are exactly the tasks the reading leaves undefined.
+
+* `parse_string_iff_sem` / `parse_string_all_iff_sem`  the same at the entry point the property observes: the transcribed
+                          `parse_string(s)` returns `(l, ts)` for some fuel iff the reading derives that match for the root
+                          at location 0; with `parse_all=True` iff in addition only skippable whitespace follows.
 
 PARTIAL w.r.t. the whole combinator language: the fragment excludes `Or`, `Each`, `SkipTo`, `Word`/`Regex` terminals, parse actions and ignorables, for
 which the clause theorems of Props/C01.lean and the reference-interpreter oracle remain the evidence.
@@ -133,6 +138,67 @@ theorem plain_parse_returns_iff (g : Grammar) (s : List Char) (hg : Plain g) (id
     cases r with
     | some x => simp only at this; rw [this]; simp
     | none => obtain ⟨l, this⟩ := this; rw [this]; simp
+
+/-! ### the entry point: `parse_string` -/
+
+
+/-- where the end-of-text test of `parse_all=True` looks: after the root's own skipping and the default whitespace -/
+def endProbe (nd : Node) (dw s : List Char) (l : Nat) : Nat :=
+  skipWhite dw s (skipWhite dw s (if nd.skipWs then skipWhite nd.white s l else l))
+
+/-- `parse_string(s)` (parse_all=False) of a plain grammar succeeds with end `l` and tokens `ts` — for some fuel — exactly
+    when the reading derives that match for the root at location 0 -/
+theorem parse_string_iff_sem (g : Grammar) (s dw : List Char) (hg : Plain g) (root l : Nat) (ts : List Tok) :
+    (∃ f, parseString (parse g s f) g root dw s false = .ok l ts) ↔ Sem g s (.node root 0 true) (some (l, ts)) := by
+  have key := (plain_parse_eq_sem g s hg root 0 true true (by omega)).1 l ts
+  have hps : ∀ f, parseString (parse g s f) g root dw s false = parse g s f root 0 true true := by
+    intro f; unfold parseString; cases parse g s f root 0 true true <;> simp
+  simp only [hps]
+  exact key
+
+/-- … and with `parse_all=True` exactly when, in addition, only skippable whitespace follows the match -/
+theorem parse_string_all_iff_sem (g : Grammar) (s dw : List Char) (hg : Plain g) (root l : Nat) (ts : List Tok)
+    (nd : Node) (hroot : g[root]? = some nd) :
+    (∃ f, parseString (parse g s f) g root dw s true = .ok l ts) ↔
+      (Sem g s (.node root 0 true) (some (l, ts)) ∧ s.length ≤ endProbe nd dw s l) := by
+  have key := (plain_parse_eq_sem g s hg root 0 true true (by omega)).1 l ts
+  have hn := hg nd (List.mem_of_getElem? hroot)
+  have hps : ∀ f l' ts', parse g s f root 0 true true = .ok l' ts' →
+      parseString (parse g s f) g root dw s true =
+        (match stringEndImpl s (endProbe nd dw s l') with
+         | .ok _ _ => .ok l' ts'
+         | o => o) := by
+    intro f l' ts' h
+    unfold parseString
+    simp only [h, if_true, hroot, preParse_plain _ nd hn, stringEndCheck, endProbe]
+    rfl
+  constructor
+  · rintro ⟨f, hf⟩
+    cases hp : parse g s f root 0 true true with
+    | ok l' ts' =>
+      rw [hps f l' ts' hp] at hf
+      by_cases hlt : endProbe nd dw s l' < s.length
+      · have hse : stringEndImpl s (endProbe nd dw s l') = .fail .parse (endProbe nd dw s l') := by
+          simp [stringEndImpl, hlt]
+        rw [hse] at hf; simp at hf
+      · obtain ⟨e, hse⟩ : ∃ e, stringEndImpl s (endProbe nd dw s l') = .ok e [] := by
+          unfold stringEndImpl; simp only [hlt, if_false]; split <;> exact ⟨_, rfl⟩
+        rw [hse] at hf
+        simp only [Out.ok.injEq] at hf
+        obtain ⟨rfl, rfl⟩ := hf
+        exact ⟨key.mp ⟨f, hp⟩, by omega⟩
+    | fail c l' => unfold parseString at hf; simp [hp] at hf
+    | idx => unfold parseString at hf; simp [hp] at hf
+    | hang => unfold parseString at hf; simp [hp] at hf
+  · rintro ⟨hs, hend⟩
+    obtain ⟨f, hf⟩ := key.mpr hs
+    refine ⟨f, ?_⟩
+    rw [hps f l ts hf]
+    obtain ⟨e, hse⟩ : ∃ e, stringEndImpl s (endProbe nd dw s l) = .ok e [] := by
+      have : ¬ endProbe nd dw s l < s.length := by omega
+      unfold stringEndImpl; simp only [this, if_false]; split <;> exact ⟨_, rfl⟩
+    rw [hse]
+
 
 /-! ### non-vacuity: a concrete plain table with sharing, recursion through a Forward and mixed whitespace settings -/
 
